@@ -190,7 +190,9 @@ def gammastd(x, nodata, cal_start, cal_stop, a=0, b=0):
         return np.full_like(x, nodata, dtype="float64")
 
     if (a == 0) and (b == 0):
-        alpha, beta = gammafit(x[cal_start:cal_stop])
+        # only observations enter the fit (a positive nodata value is not a rainfall amount)
+        cal = x[cal_start:cal_stop]
+        alpha, beta = gammafit(cal[cal != nodata])
     else:
         alpha, beta = (a, b)
 
